@@ -15,6 +15,8 @@ struct AState {
 	utxo: BTreeMap<usize, (u64, bool)>,
 	/// plain outputs spent on this path
 	spent: Vec<usize>,
+	/// last height an NRD kernel of each excess slot occurred on this path
+	nrd_last: BTreeMap<usize, u64>,
 }
 
 struct Gen {
@@ -47,6 +49,16 @@ impl Gen {
 		for o in b.outputs() {
 			if let Some(id) = self.kit.by_commit.get(&o.commitment()) {
 				s.utxo.insert(*id, (b.header.height, o.is_coinbase()));
+			}
+		}
+		for k in b.kernels() {
+			if let grin_core::core::KernelFeatures::NoRecentDuplicate { .. } = k.features {
+				let tag = hex(&k.excess.0[..8]);
+				for slot in 0..3 {
+					if nrd_excess_tag(&self.kit.kc, slot) == tag {
+						s.nrd_last.insert(slot, b.header.height);
+					}
+				}
 			}
 		}
 		s
@@ -149,10 +161,22 @@ impl Gen {
 				if v < 10 {
 					continue;
 				}
+				let mut kernel = KSpec::Plain(fee);
+				if h >= 9 && rng.chance(1, 2) {
+					// a no-recent-duplicate kernel whose excess last occurred far enough back (or never)
+					let slot = rng.below(3) as usize;
+					let rel = rng.range(1, 3);
+					let last = self.states[&parent].nrd_last.get(&slot).cloned();
+					let used = specs.iter().any(|s: &TxSpec| matches!(s.kernel, KSpec::Nrd(_, _, sl) if sl == slot));
+					if !used && last.map(|l| h >= l + rel).unwrap_or(true) {
+						kernel = KSpec::Nrd(fee, rel, slot);
+						self.stat(if last.is_some() { "tx:nrd-valid-repeat-at-or-after-threshold" } else { "tx:nrd-valid-first" });
+					}
+				}
 				specs.push(TxSpec {
 					inputs: vec![o],
 					outputs: vec![(v - fee, None)],
-					kernel: KSpec::Plain(fee),
+					kernel,
 				});
 				weight += 25;
 				self.stat("tx:move");
@@ -231,7 +255,7 @@ impl Gen {
 	fn add_invalid(&mut self, rng: &mut Rng, parent: usize) -> Option<usize> {
 		let h = self.kit.blks[parent].height + 1;
 		let diff = rng.range(1, 6);
-		let kind = rng.below(16);
+		let kind = rng.below(18);
 		let st = self.states[&parent].clone();
 		let spendable = self.spendable(parent, h);
 		let mut tags: Vec<String> = vec![];
@@ -309,6 +333,32 @@ impl Gen {
 				let v = self.kit.outs[o].value;
 				txs.push(self.kit.build_tx(&TxSpec { inputs: vec![o], outputs: vec![(v - 1, None)], kernel: KSpec::HeightLocked(1, h + 1) }).ok()?);
 				label = "lock-height-above";
+			}
+			16 => {
+				// NRD kernel repeating an excess fewer than its relative height blocks back
+				if h < 9 || spendable.is_empty() {
+					return None;
+				}
+				let cands: Vec<(usize, u64)> = st.nrd_last.iter().map(|(s, l)| (*s, *l)).collect();
+				if cands.is_empty() {
+					return None;
+				}
+				let (slot, last) = *rng.pick(&cands);
+				let rel = h - last + 1 + rng.below(2);
+				let o = spendable[0];
+				let v = self.kit.outs[o].value;
+				txs.push(self.kit.build_tx(&TxSpec { inputs: vec![o], outputs: vec![(v - 1, None)], kernel: KSpec::Nrd(1, rel, slot) }).ok()?);
+				label = "nrd-duplicate-too-recent";
+			}
+			17 => {
+				// NRD kernel before the hard fork that allows it
+				if h >= 9 || spendable.is_empty() {
+					return None;
+				}
+				let o = spendable[0];
+				let v = self.kit.outs[o].value;
+				txs.push(self.kit.build_tx(&TxSpec { inputs: vec![o], outputs: vec![(v - 1, None)], kernel: KSpec::Nrd(1, 1, 0) }).ok()?);
+				label = "nrd-before-hf3";
 			}
 			5 => {
 				delta = if rng.chance(1, 2) { 1 } else { -1 };
@@ -492,7 +542,7 @@ fn run_history(out: &mut Out, rng: &mut Rng, work: &str, hist: usize, big: bool)
 	g.states.insert(0, s0);
 
 	// --- tree ---
-	let trunk_len = if big { rng.range(9, 14) } else { rng.range(6, 10) };
+	let trunk_len = if big { rng.range(10, 15) } else { rng.range(8, 12) };
 	let mut tip = 0usize;
 	let mut trunk = vec![0usize];
 	for _ in 0..trunk_len {
